@@ -17,6 +17,12 @@ pub struct Seed {
     pub hot: Option<Range<usize>>,
     /// the unmutated seed must visibly do something (reply or state change) on a fresh world
     pub expect_effect: bool,
+    /// 1: always part of the BFS alphabets; 2: part of the depth-2 alphabets only; 0: only if it
+    /// is the representative of its effect class
+    pub pin: u8,
+    /// false: the seed (and its truncations) is injected, but no byte / pair mutants are made
+    /// of it (seeds that only make sense as the second or third frame of a sequence)
+    pub mutate: bool,
 }
 
 #[derive(Clone, Copy)]
@@ -184,6 +190,63 @@ fn conn_seeds(me: &[u8], peer: &[u8], l: &Learned, v6: bool) -> Vec<IpSeed> {
     v
 }
 
+/// Initial sequence numbers around the sign change of the 32-bit sequence space (2^31) and its
+/// wrap-around (2^32). The sockets' receive buffers are 64 octets, so B-0x20 puts the receive
+/// window astride the boundary, B-0x100 just below it, B-1 / B exactly on it.
+pub const EDGE_ISNS: [u32; 7] = [0x7fff_ff00, 0x7fff_ffe0, 0x7fff_ffff, 0x8000_0000, 0xffff_ff00, 0xffff_ffe0, 0xffff_ffff];
+pub const EDGE_VALUES: [u32; 5] = [0x7fff_ff00, 0x7fff_ffff, 0x8000_0000, 0xffff_ff00, 0xffff_ffff];
+pub const P_PEER_EDGE: u16 = 4446;
+
+/// SYN to the listening socket with the given initial sequence number (also used by the
+/// harness to learn which ISS the stack answers with from the base state).
+pub fn edge_listen_syn(me: &[u8], peer: &[u8], isn: u32) -> Vec<u8> {
+    ip(peer, me, 6, &tcp(peer, me, P_PEER_EDGE, P_LISTEN, isn, 0, SYN, 2048, &[2, 4, 2, 0], &[]))
+}
+
+/// TCP sequence-space edge cases. Names: <fam>/tcp-b/<socket>/<isn>/<role>; role "open" is the
+/// handshake segment that places RCV.NXT at isn+1 (SYN to the listener, SYN-ACK to the
+/// connecting socket), the other roles are segments that only make sense after it.
+fn tcp_edge_seeds(me: &[u8], peer: &[u8], l: &Learned, v6: bool) -> Vec<IpSeed> {
+    let fam = if v6 { "v6" } else { "v4" };
+    let mut v = vec![];
+    for isn in EDGE_ISNS {
+        for (sock, sport, dport, ack) in [
+            ("listen", P_PEER_EDGE, P_LISTEN, l.listen_iss.wrapping_add(1)),
+            ("synsent", P_PEER_SYNSENT, P_SYNSENT_LOCAL, l.synsent_iss.wrapping_add(1)),
+        ] {
+            let name = |role: &str| format!("{}/tcp-b/{}/{:08x}/{}", fam, sock, isn, role);
+            let open = if sock == "listen" {
+                edge_listen_syn(me, peer, isn)
+            } else {
+                ip(peer, me, 6, &tcp(peer, me, sport, dport, isn, ack, SYN | ACK, 2048, &[2, 4, 2, 0], &[]))
+            };
+            v.push(s(&name("open"), open, true));
+            let nxt = isn.wrapping_add(1);
+            let mut seg = |role: &str, seq: u32, flags: u8, data: &[u8]| {
+                let t = tcp(peer, me, sport, dport, seq, ack, flags, 2048, &[], data);
+                v.push(s(&name(role), ip(peer, me, 6, &t), false));
+            };
+            seg("ack", nxt, ACK, &[]);
+            seg("data", nxt, ACK | PSH, &[0x64; 48]);
+            seg("ooo", nxt.wrapping_add(40), ACK, &[0x6f; 8]);
+            seg("overlap", nxt.wrapping_sub(16), ACK, &[0x72; 48]);
+            seg("fin", nxt, ACK | FIN, &[]);
+            seg("rst", nxt, RST, &[]);
+        }
+    }
+    // the ESTABLISHED socket (RCV.NXT far away from the edges): sequence / acknowledgment
+    // numbers sitting on the edges
+    let snd = PEER_ISN.wrapping_add(1);
+    let rcv = l.est_iss.wrapping_add(1);
+    for e in EDGE_VALUES {
+        for (role, seq, ack) in [("seq", e, rcv), ("ack", snd, e), ("both", e, e)] {
+            let t = tcp(peer, me, P_PEER_EST, P_EST, seq, ack, ACK, 2048, &[], b"e");
+            v.push(s(&format!("{}/tcp-b/est/{:08x}/{}", fam, e, role), ip(peer, me, 6, &t), false));
+        }
+    }
+    v
+}
+
 fn v4_seeds(cfg: Cfg, l: &Learned) -> Vec<IpSeed> {
     let (me, peer) = (&IFACE4[..], &PEER4[..]);
     let bcast = [192, 168, 69, 255];
@@ -225,6 +288,7 @@ fn v4_seeds(cfg: Cfg, l: &Learned) -> Vec<IpSeed> {
     v.push(s("v4/tcp/syn-data-listen", ip(peer, me, 6, &tcp(peer, me, 4445, P_LISTEN, 5, 0, SYN, 100, &[2, 4, 0, 100], b"early")), true));
     if !cfg.v6_peers() {
         v.extend(conn_seeds(me, peer, l, false));
+        v.extend(tcp_edge_seeds(me, peer, l, false));
     }
     // one ICMP echo request (32 byte ICMP message) in three fragments
     let big = icmp4(8, 0, [0x43, 0x21, 0, 2], b"0123456789abcdefghijklmn");
@@ -362,6 +426,7 @@ fn v6_seeds(cfg: Cfg, l: &Learned) -> Vec<IpSeed> {
     v.push(s("v6/tcp/syn-closed-port", syn(9, &[2, 4, 5, 0xa0]), cfg.variant == 0));
     if cfg.v6_peers() {
         v.extend(conn_seeds(me, peer, l, true));
+        v.extend(tcp_edge_seeds(me, peer, l, true));
     }
     v.push(s("v6/unknown-next-header", ipv6(peer, me, 253, 64, b"experimental"), true));
     let mut fh = vec![58, 0, 0, 1, 0, 0, 0, 9];
@@ -380,7 +445,7 @@ fn v6_seeds(cfg: Cfg, l: &Learned) -> Vec<IpSeed> {
 }
 
 fn plain(name: &str, frame: Vec<u8>, effect: bool) -> Seed {
-    Seed { name: name.to_string(), frame, l4: None, hot: None, expect_effect: effect }
+    Seed { name: name.to_string(), frame, l4: None, hot: None, expect_effect: effect, pin: 0, mutate: true }
 }
 
 fn ethernet_seeds(cfg: Cfg, l: &Learned) -> Vec<Seed> {
@@ -404,7 +469,7 @@ fn ethernet_seeds(cfg: Cfg, l: &Learned) -> Vec<Seed> {
     let hot = |f: &Vec<u8>| Some(DHCP_OPTS_OFF..f.len());
     let mut dh = |name: &str, f: Vec<u8>, effect: bool| {
         let h = hot(&f);
-        v.push(Seed { name: name.to_string(), frame: f, l4: None, hot: h, expect_effect: effect });
+        v.push(Seed { name: name.to_string(), frame: f, l4: None, hot: h, expect_effect: effect, pin: 0, mutate: true });
     };
     let lease = [192, 168, 69, 50];
     dh("dhcp/offer", dhcp_frame(2, l.dhcp_xid, &lease, Default::default()), cfg.variant == 0);
@@ -486,7 +551,7 @@ fn ieee802154_seeds(cfg: Cfg, l: &Learned) -> Vec<Seed> {
     let add = |v: &mut Vec<Seed>, name: String, (frame, l4): (Vec<u8>, Option<L4Info>), effect: bool| {
         // smoltcp refuses 802.15.4 frames longer than 127 octets
         let effect = effect && frame.len() <= 127;
-        v.push(Seed { name, frame, l4, hot: None, expect_effect: effect });
+        v.push(Seed { name, frame, l4, hot: None, expect_effect: effect, pin: 0, mutate: true });
     };
     let compact = |p: &[u8]| {
         let ll = |a: &[u8]| a[0] == 0xfe && a[1] == 0x80 && a[2..8] == [0; 6];
@@ -694,6 +759,19 @@ pub fn catalogue(cfg: Cfg, l: &Learned) -> Vec<Seed> {
     if cfg.medium == Medium::Ieee802154 {
         // the device MTU is 127 octets: longer frames are outside the quantified domain
         v.retain(|sd| sd.frame.len() <= 127);
+    }
+    for sd in v.iter_mut() {
+        if sd.name.contains("/tcp-b/") {
+            let open = sd.name.ends_with("/open");
+            let est = sd.name.contains("/tcp-b/est/");
+            sd.pin = if open { 1 } else if est { 0 } else { 2 };
+            // one handshake segment per socket gets the full mutation treatment, the others
+            // differ from it in the sequence number only
+            sd.mutate = sd.name.ends_with("7fffffe0/open");
+        } else if sd.name.contains("frag/") {
+            // lone first / middle / last fragments are always available to the sequence search
+            sd.pin = 1;
+        }
     }
     // option / record areas that lie beyond the first 96 bytes are mutated as well: all of an
     // 802.15.4 frame (<= 127 octets), and the tails of NDISC and DNS messages
